@@ -20,7 +20,8 @@ pub fn builtin_length(x: Either![IStr, ArrValue, ObjValue, FuncVal]) -> usize {
 		A(x) => x.chars().count(),
 		B(x) => x.len(),
 		C(x) => x.len(),
-		D(f) => f.params_len(),
+		// Documented as the number of parameters, including ones with default values
+		D(f) => f.params().len(),
 	}
 }
 
